@@ -110,6 +110,23 @@ def handler_control_rule(ctx, rule="R16e"):
     ctx.floor(rule, "SearchHandler impls of db_search_handlers", n, 4)
 
 
+def path_slices_after_filter(fa):
+    """True when the path search applies skip / take only to the elements that passed the flag filter (every `skip` /
+    `take` in PathSearch receives an iterator derived from the `filter` on the per-element flag)."""
+    found = False
+    for pb in fa.find(r"^agdb::graph_search::path_search::PathSearch::"):
+        flt = [t["d"][0] for i, t in cfg.calls(pb) if (cfg.callee_decl(t) or "").endswith("Iterator::filter")]
+        der = cfg.derived_locals(pb, flt, extra_through=tuple(
+            {cfg.callee(t) for i, t in cfg.calls(pb) if (cfg.callee_decl(t) or "").startswith("std::iter::Iterator::")})) if flt else {}
+        for i, t in cfg.calls(pb):
+            if (cfg.callee_decl(t) or "") in ("std::iter::Iterator::skip", "std::iter::Iterator::take"):
+                found = True
+                pl = cfg.op_place(t["a"][0])
+                if not (pl and pl[0] in der):
+                    return False
+    return found
+
+
 def run(ctx):
     fa = ctx.facts
     b = ctx.anchor("R16a", SQ + "slice")
@@ -209,8 +226,21 @@ def run(ctx):
             c = common.norm(cfg.callee(t) or "")
             if c not in (DB + "search_from", DB + "search_to", DB + "search_from_to"):
                 continue
-            if c.endswith("search_from_to"):
-                full = True
+            if c.endswith("search_from_to") and len(t["a"]) < 5:
+                full = True             # the path search takes no limit / offset: always complete
+            elif c.endswith("search_from_to"):
+                # a path search is never streamed: the elements of the path are selected by their flag only after the
+                # search, so limit / offset can only be applied by slice() on the complete result
+                ks = [cfg.op_const(a) for a in t["a"][3:5]]
+                full = all(k and k.get("v") == 0 for k in ks)
+                if not full and path_slices_after_filter(fa):
+                    continue            # a streamed path search that slices the *selected* elements is the same result
+                if not full:
+                    ctx.ob("R16c", "search:%s@limit-offset" % c.split("::")[-1], False,
+                           "the path search is given limit / offset (%s): a path is filtered by the per-element flag after the "
+                           "search, so slicing inside the search counts elements the conditions did not select" % b.loc(i), b.loc(i),
+                           key="%s|R16c|search|path-streamed" % ctx.pid)
+                    continue
             else:
                 k3, k4 = cfg.op_const(t["a"][3]), cfg.op_const(t["a"][4])
                 o3, o4 = cfg.op_origin(b, t["a"][3]), cfg.op_origin(b, t["a"][4])
@@ -226,7 +256,7 @@ def run(ctx):
                 p1 = cfg.find_path(b, [i], targets, avoid=sort, leave_start=True)
                 p2 = cfg.find_path(b, [i], targets, avoid=slc, leave_start=True)
                 p3 = cfg.find_path(b, [i], slc, avoid=sort, leave_start=True)
-                ok = bool(sort and slc) and p1 is None and p2 is None and p3 is None
+                ok = bool(sort and slc) and p1 is None and p2 is None and p3 is None and i not in targets
                 ctx.ob("R16c", "search:full-search#%d(%s)" % (n_full, c.split("::")[-1]), ok,
                        "complete search (0,0) -> sort -> slice on every success path" if ok else
                        "an ordered/path search result can be returned without sort-then-slice", b.loc(i))
